@@ -9,11 +9,14 @@
 (* credible_interval (two binary searches over the cumulative values,      *)
 (* which may repeat: any hit may end the search), sample.  A second kind   *)
 (* of behaviour runs the stride loop of sample on every length             *)
-(* 0..SampLen with every n in 2..SampN.                                    *)
+(* 0..SampLen with every n in 2..SampN.  A third kind runs the maximum     *)
+(* search of ln_integrate_exp on the lattice 0..IntW for every mode c,     *)
+(* every slope in IntSlopes and every resolution in IntRes (lattice units, *)
+(* even, so that every midpoint is a lattice point).                       *)
 (* Weights are in units of 1 / One.                                        *)
 (***************************************************************************)
 EXTENDS Cdf
-CONSTANTS MaxLen, MaxVal, MaxW, One, WD, SampLen, SampN
+CONSTANTS MaxLen, MaxVal, MaxW, One, WD, SampLen, SampN, IntW, IntRes, IntSlopes
 
 Pairs == (0..MaxVal) \X (0..MaxW)
 Pmfs  == UNION {[1..n -> Pairs] : n \in 0..MaxLen}
@@ -30,6 +33,7 @@ NoOp == [o |-> "none"]
 Init ==
     /\ task \in {[t |-> "pmf", p |-> p] : p \in Pmfs}
                 \cup {[t |-> "sample", len |-> l, n |-> n] : l \in 0..SampLen, n \in 2..SampN}
+                \cup {[t |-> "integ", c |-> c, res |-> r, sl |-> sl] : c \in 0..IntW, r \in IntRes, sl \in IntSlopes}
     /\ (task.t = "pmf" => MassAll(task.p) <= One)
     /\ pc = "start" /\ st = << >> /\ reg = [x |-> 0] /\ op = NoOp /\ out = 0
 
@@ -142,13 +146,29 @@ SampEnd ==
     /\ out' = Append(reg.inner, st[task.len]) /\ pc' = "done"
     /\ UNCHANGED <<task, st, reg, op>>
 
-Next == BuildStart \/ BuildStep \/ BuildEnd \/ Choose \/ SearchStep \/ SearchEnd \/ MapLoop \/ MapEnd
+\* ------------------------------- ln_integrate_exp, the maximum search
+\* density symmetric about the mode task.c, positive on the whole lattice
+Dens(x) == task.sl * IntW + 1 - task.sl * Abs(x - task.c)
+IntStart ==
+    /\ pc = "start" /\ task.t = "integ"
+    /\ reg' = IntInit(0, IntW) /\ pc' = "halve"
+    /\ UNCHANGED <<task, st, op, out>>
+IntLoop ==
+    /\ pc = "halve" /\ IntCont(reg, task.res)
+    /\ reg' = IntStep(Dens, reg)
+    /\ UNCHANGED <<task, pc, st, op, out>>
+IntEnd ==                                    \* the grid so far plus the point in the abandoned arm
+    /\ pc = "halve" /\ ~IntCont(reg, task.res)
+    /\ out' = reg.seen \cup {IntArmPoint(0, IntW, reg)} /\ pc' = "done"
+    /\ UNCHANGED <<task, st, reg, op>>
+
+Next == IntStart \/ IntLoop \/ IntEnd \/ BuildStart \/ BuildStep \/ BuildEnd \/ Choose \/ SearchStep \/ SearchEnd \/ MapLoop \/ MapEnd
         \/ ReduceLoop \/ ReduceEnd \/ LowerStep \/ LowerEnd \/ UpperStep \/ UpperEnd
         \/ SampStart \/ SampLoop \/ SampEnd
 Spec == Init /\ [][Next]_vars
 
 \* ------------------------------------------------------------ invariants
-TypeOK == pc \in {"start", "build", "built", "search", "map", "reduce", "lower", "upper", "stride", "done"}
+TypeOK == pc \in {"start", "build", "built", "search", "map", "reduce", "lower", "upper", "stride", "halve", "done"}
 
 \* the merge loop: after consuming a prefix of the sorted entries the register is the CDF of that prefix
 BuildMeaning ==
@@ -213,9 +233,40 @@ SampleResult ==
         \* as many entries as a uniform stride allows: one entry less would need a wider stride
         /\ task.len > task.n => (Len(out) - 1) * Stride >= task.len - 1
 
+\* the halving loop keeps the mode inside the window and every midpoint on the lattice
+IntMeaning ==
+    pc = "halve" =>
+        /\ reg.l <= task.c /\ task.c <= reg.r /\ {reg.l, reg.r} \subseteq reg.seen
+        /\ IntCont(reg, task.res) => (reg.l + reg.r) % 2 = 0
+\* at the end the mode lies in a cell narrower than the resolution; on every grid between the points visited
+\* and the whole lattice the trapezoid sum falls short of the area by exactly slope * (distances of the mode
+\* to its two grid neighbours), which is at most slope * res^2 / 4
+IntArea2 == Trap2(Dens, {0, task.c, IntW})
+IntResult ==
+    (pc = "done" /\ task.t = "integ") =>
+        /\ {0, IntW} \subseteq out /\ out \subseteq 0..IntW
+        /\ reg.r - reg.l < task.res /\ reg.l <= task.c /\ task.c <= reg.r /\ {reg.l, reg.r} \subseteq out
+        /\ \A extra \in SUBSET ((0..IntW) \ out) :
+              LET g  == out \cup extra
+                  lo == CHOOSE x \in g : x <= task.c /\ \A y \in g : y <= task.c => y <= x
+                  hi == CHOOSE x \in g : x >= task.c /\ \A y \in g : y >= task.c => x <= y
+              IN  /\ IntArea2 - Trap2(Dens, g) = 2 * task.sl * (task.c - lo) * (hi - task.c)
+                  /\ 4 * (IntArea2 - Trap2(Dens, g)) <= 2 * task.sl * task.res * task.res
+                  /\ Trap2(Dens, g) <= IntArea2
+\* a density that is linear on the whole interval, or has its only knot at the first midpoint, is integrated
+\* exactly on every grid that contains the end points (and that midpoint)
+LinDens(x) == 3 + 2 * x
+TentDens(x) == IF 2 * x <= IntW THEN 1 + 3 * x ELSE 1 + 3 * (IntW \div 2) - (x - IntW \div 2)
+IntExactLemma ==
+    (pc = "done" /\ task.t = "integ") =>
+        /\ Trap2(LinDens, out) = Trap2(LinDens, {0, IntW})
+        /\ (IntW \div 2) \in out
+        /\ Trap2(TentDens, out) = Trap2(TentDens, {0, IntW \div 2, IntW})
+
 Rank == (CASE pc = "start" -> 0 [] pc = "build" -> 1 [] pc = "built" -> 2
-           [] pc \in {"search", "map", "reduce", "lower", "stride"} -> 3 [] pc = "upper" -> 4 [] OTHER -> 5) * 1000
+           [] pc \in {"search", "map", "reduce", "lower", "stride", "halve"} -> 3 [] pc = "upper" -> 4 [] OTHER -> 5) * 1000
         + (IF pc \in {"build", "map", "reduce", "stride"} THEN reg.i ELSE 0)
+        + (IF pc = "halve" THEN Cardinality(reg.seen) ELSE 0)
         + (IF pc \in {"search", "lower", "upper"} THEN (IF reg.found # 0 THEN 100 ELSE 50 - (reg.hi - reg.lo)) ELSE 0)
 Progress == [][Rank' > Rank]_vars
 NoStall  == pc # "done" => ENABLED Next
